@@ -39,7 +39,10 @@ man = {
     ],
     "checks": checks,
     "not_applicable": na,
-    "notes": "All checks rebuild the harness from /repo's working tree. Known findings: /verif/KNOWN_FINDINGS.txt.",
+    "notes": ("All checks rebuild the harness from /repo's working tree (cargo build of /verif/harness with path dependencies on /repo) and the Lean modules they need; "
+              "they honour VERIF_SEED and VERIF_TIER. Exit 0 = held; exit 1 + VIOLATION lines otherwise (suffix no-failing-input-found when only a theorem or the correspondence broke); exit 2 + CHECK-ERROR = machinery failure. "
+              "Genuine defects found by the checks and repaired in /repo by 'fix:' commits: 607bdfd (C10), 13ae5e2 and 9fa6c1c (C12); one recorded known finding (C20, bare SigningShare) — see /verif/KNOWN_FINDINGS.txt and DESIGN.md §0/§9. "
+              "Seeded changes and which checks catch them: DESIGN.md §13, /verif/seeded/."),
 }
 json.dump(man, open("MANIFEST.json", "w"), indent=1)
 print("claimed:", [c["property_id"] for c in checks])
